@@ -87,6 +87,9 @@ class DetectVarNames( ast.NodeVisitor ):
         elif isinstance( v, ast.Call ): # int(x)
           for x in v.args:
             self.visit(x)
+        elif isinstance( v, ( ast.Subscript, ast.BinOp, ast.UnaryOp, ast.IfExp ) ):
+          # s.sel[0:2], s.vec[0], s.a + 1: the signals inside the index are read
+          self.visit( v )
 
         num.append(n)
 
@@ -186,6 +189,9 @@ class DetectVarNames( ast.NodeVisitor ):
         elif isinstance( v, ast.Call ): # int(x)
           for x in v.args:
             self.visit(x)
+        elif isinstance( v, ( ast.Subscript, ast.BinOp, ast.UnaryOp, ast.IfExp ) ):
+          # s.sel[0:2], s.vec[0], s.a + 1: the signals inside the index are read
+          self.visit( v )
         elif isinstance( v, ast.Slice ): # s.sel, may be constant
           raise TypeError( f"Having slice in the middle such as s.x[1][1:2][1][2] "
                            f"doesn't make sense at line {input_node.lineno} of "
